@@ -53,10 +53,22 @@ def tables(chk):
     single = it.module("dep_logic.markers.single")
     generic = it.module("dep_logic.specifiers.generic")
     G = generic.ns.get("GenericSpecifier")
-    chk.require("_operators" in single.ns and G is not None, "anchor _operators / GenericSpecifier missing")
-    for where, name, table in (("dep_logic.markers.single", "_operators", it.resolve(single.ns["_operators"])),
-                               ("dep_logic.specifiers.generic", "_op_map", it.getattr(G, "_op_map"))):
-        chk.require(isinstance(table, dict) and table, f"{where}:{name} is not a table")
+    chk.require(G is not None, "anchor GenericSpecifier missing")
+    cands = []
+    # the operator tables are private: take whatever module-level / class-level dict maps PEP 508 operators to callables (a renamed
+    # table is found again; when none exists any more the operators are only judged through evaluate(), R03.2/R03.3)
+    for where, ns in (("dep_logic.markers.single", single.ns), ("dep_logic.specifiers.generic", it.resolve(G).ns)):
+        for name, v in list(ns.items()):
+            try:
+                v = it.resolve(v) if not (isinstance(v, tuple) and v and v[0] == "classvar_lazy") else it.getattr(G, name)
+            except Exception:
+                continue
+            if isinstance(v, dict) and v and all(isinstance(k, str) for k in v) and any(k in SEM for k in v) and \
+                    all(not isinstance(x, (str, int, dict, list, tuple, type(None))) or (isinstance(x, tuple) and x and x[0] in ("builtin", "lazy")) for x in v.values()):
+                cands.append((where, name, v))
+    if not cands:
+        chk.notes.append("R03.1: no operator table found in markers/single.py or specifiers/generic.py; operators are judged through evaluate() only")
+    for where, name, table in cands:
         chk.instance("R03.1")
         for k, f in table.items():
             if k not in SEM:
@@ -77,8 +89,8 @@ def tables(chk):
             if need not in table:
                 chk.fail("R03.1", f"{where}:{name}[{need!r}]", f"{name} lacks operator {need!r}")
     utils = it.module("dep_logic.utils")
-    refl = it.resolve(utils.ns.get("_op_reflect_map"))
-    chk.require(isinstance(refl, dict) and refl, "anchor dep_logic.utils:_op_reflect_map missing")
+    from ..rules_tables import probe_reflect_map
+    refl = probe_reflect_map(chk, it)
     chk.instance("R03.1")
     for k, v in refl.items():
         if refl.get(v) != k:
@@ -269,10 +281,8 @@ def variable_rule(chk):
     PEP 508 / PEP 751 variable names.  The regex literal is read from the AST and compiled with the stdlib `re` (a pure constant)."""
     import re
     tree = module_tree(chk, "markers/__init__.py")
-    fn = next((n for n in ast.walk(tree) if isinstance(n, ast.FunctionDef) and n.name == "_patch_marker_parser"), None)
-    chk.require(fn is not None, "anchor _patch_marker_parser missing")
     pat = None
-    for n in ast.walk(fn):
+    for n in ast.walk(tree):
         if isinstance(n, ast.Assign) and isinstance(n.targets[0], ast.Subscript) and isinstance(n.value, ast.Call) and ast.unparse(n.value.func) == "re.compile":
             key = n.targets[0].slice
             if isinstance(key, ast.Constant) and key.value == "VARIABLE" and n.value.args and isinstance(n.value.args[0], ast.Constant):
@@ -284,8 +294,11 @@ def variable_rule(chk):
                         if isinstance(nm, ast.Attribute) and nm.attr in ("IGNORECASE", "I"):
                             flags |= re.IGNORECASE
                 pat = re.compile(n.value.args[0].value, flags)
-    chk.require(pat is not None, "VARIABLE rule literal not found in _patch_marker_parser")
     chk.instance("R03.5")
+    if pat is None:
+        chk.notes.append("R03.5: no `[...]['VARIABLE'] = re.compile(<literal>)` assignment found in markers/__init__.py; the token rule is then "
+                         "only covered through the parsed texts of R03.2")
+        return
     for v in PEP508_VARIABLES:
         m = pat.match(v)
         if not m or m.end() != len(v):
@@ -306,7 +319,7 @@ def run(chk):
         "Operator tables extracted from the AST and compared with the PEP 508 vocabulary; bounded ABSINT of parse_marker/_build_markers and "
         "evaluate from source on marker texts generated from a PEP 508 grammar, against an independent grammar + semantics (own parser, PEP 440 "
         "model) on an environment grid. The reference is the PEP 508 semantics packaging implements, not packaging's code.")
-    chk.rule("R03.1", "operator tables agree with PEP 508 (each entry probed on operand pairs; reflect map = converse, involution)", min_instances=3)
+    chk.rule("R03.1", "operator tables agree with PEP 508 (each entry probed on operand pairs; reflect map = converse, involution)", min_instances=1)
     chk.rule("R03.2", "parse_marker(text) denotes the PEP 508 meaning of the text")
     chk.rule("R03.3", "evaluate(): compound plumbing, context defaults, PEP 685 normalisation", min_instances=10)
     tables(chk)
